@@ -7,7 +7,6 @@ import torch._dynamo
 import torch.nn as nn
 import torch.optim as optim
 from gymnasium import spaces
-from tensordict import TensorDict, from_module
 from tensordict.nn import CudaGraphModule
 
 from agilerl.algorithms.core import RLAlgorithm
@@ -180,24 +179,16 @@ class DQN(RLAlgorithm):
         self.register_mutation_hook(self.init_hook)
 
     def init_hook(self) -> None:
-        """Resets module parameters for the detached and target networks."""
-        param_vals: TensorDict = from_module(self.actor).detach()
-
-        # NOTE: This removes the target params from the computation graph which
-        # reduces memory overhead and speeds up training, however these won't
-        # appear in the modules parameters
-        target_params: TensorDict = param_vals.clone().lock_()
-
+        """Resets the target network to the weights of the evaluation network."""
+        # NOTE: The target keeps its own registered parameters so that they are
+        # soft-updated by `soft_update()` and saved in checkpoints.
         # This hook is prompted after performing architecture mutations on policy / evaluation
         # networks, which will fail since the target network is a shared network that won't be
         # reintiialized until the end. We can bypass the error safely for this reason.
         try:
-            target_params.to_module(self.actor_target)
-        except KeyError:
+            self.actor_target.load_state_dict(self.actor.state_dict())
+        except (KeyError, RuntimeError):
             pass
-        finally:
-            self.param_vals = param_vals
-            self.target_params = target_params
 
     def get_action(
         self,
